@@ -168,6 +168,9 @@ func (ex *Exec) loopArrive(fr *Frame, from, head *ssa.BasicBlock, li *loopInfo) 
 		for i, inv := range spec.Invariants {
 			ex.oblige("inv-entry", fmt.Sprintf("%s:%03d", lname, i), li.pos, "loop invariant holds on entry: "+inv.Text, ex.evalBool(inv.E, env()))
 		}
+		for i, inv := range spec.Stable {
+			ex.oblige("inv-entry", fmt.Sprintf("%s:s%03d", lname, i), li.pos, "holds on loop entry (assumed stable afterwards): "+inv.Text, ex.evalBool(inv.E, env()))
+		}
 	}
 	ws := ex.discoverWrites(fr, from, head, li)
 	preLoop := ex.st.snapshot()
@@ -239,6 +242,10 @@ func (ex *Exec) loopArrive(fr *Frame, from, head *ssa.BasicBlock, li *loopInfo) 
 	fr.cut[head.Index] = true
 	fr.loopOld[head.Index] = preLoop
 	if spec != nil {
+		for _, inv := range spec.Stable {
+			ex.assume(ex.evalBool(inv.E, env()))
+			ex.note("ASSUMED stable across " + lname + " (proved on entry only; ownership/aliasing argument outside the verifier): " + inv.Text)
+		}
 		for _, inv := range spec.Invariants {
 			ex.assume(ex.evalBool(inv.E, env()))
 		}
